@@ -62,11 +62,23 @@ def _better_call(test: ast.AST, ind: str, attr: str) -> Optional[str]:
     return None
 
 
+class _Undecided(Exception):
+    pass
+
+
+class _Swapped(Exception):
+    pass
+
+
 def rule_r1_single(ctx: Ctx) -> int:
+    """Model-check the per-individual code of the single-objective tracker over the atoms
+         F = 'no best stored yet'      B = 'the new individual is strictly better than the stored best'
+    For each of the three cases (F), (not F, B), (not F, not B) the code is interpreted (boolean expressions with
+    short-circuit semantics, if/else, flag variables): the stored best must be replaced and the flag handed to the
+    recorders must be true exactly when F or B."""
     prog = ctx.prog
     n = 0
     for c in prog.subclasses(TRACKER):
-        # the single-objective tracker is the one that stores a single best individual
         gb = c.methods.get("get_best_individual")
         if gb is None:
             continue
@@ -81,9 +93,24 @@ def rule_r1_single(ctx: Ctx) -> int:
             ctx.ob("C12.R1", gb, gb.node, "per-individual body", None, "cannot locate the per-individual code")
             continue
         fn, body, ind = pib
-        # register(...) flag
-        reg = [x for x in ast.walk(ast.Module(body=body, type_ignores=[])) if isinstance(x, ast.Call)
-               and call_name(x) == "register"]
+        # aliases of the stored best: locals assigned from self.<attr>; where are they (re)assigned?
+        ev = prog.lookup_method(c, "evaluate")
+        outer_alias: dict[str, ast.AST] = {}
+        inner_alias: set[str] = set()
+        body_nodes = {id(x) for st in body for x in ast.walk(st)}
+        for owner in {fn, ev} - {None}:
+            for a in walk_local(owner.node):
+                if isinstance(a, ast.Assign) and len(a.targets) == 1 and isinstance(a.targets[0], ast.Name) and is_self_attr(a.value, attr):
+                    if id(a) in body_nodes:
+                        inner_alias.add(a.targets[0].id)
+                    else:
+                        outer_alias[a.targets[0].id] = a
+        aliases = set(outer_alias) | inner_alias
+
+        def is_best_ref(e: ast.AST) -> bool:
+            return is_self_attr(e, attr) or (isinstance(e, ast.Name) and e.id in aliases)
+
+        reg = [x for st in body for x in ast.walk(st) if isinstance(x, ast.Call) and call_name(x) == "register"]
         flag_expr = None
         for r in reg:
             for k in r.keywords:
@@ -95,57 +122,115 @@ def rule_r1_single(ctx: Ctx) -> int:
             ctx.ob("C12.R1", fn, fn.node, "recorders are told is_best", False,
                    "no recorder.register(..., is_best=<flag>) in the per-individual code")
             continue
-        ps = paths(body, unroll_loops=False)
-        for i, p in enumerate(ps):
-            n += 1
-            env: dict[str, Any] = {}
-            assigned: Optional[str] = None
-            flag_at_register: Any = "unset"
-            for ev in p:
-                if ev[0] != "stmt":
-                    continue
-                st = ev[1]
-                if isinstance(st, (ast.For, ast.AsyncFor)) and any(r in list(ast.walk(st)) for r in reg):
-                    flag_at_register = _bool_of(flag_expr, env)
+
+        used_stale: list[ast.AST] = []
+
+        def beval(e: ast.AST, env: dict, F: bool, B: bool):
+            if isinstance(e, ast.Constant) and isinstance(e.value, bool):
+                return e.value
+            if isinstance(e, ast.Name) and e.id in env:
+                return env[e.id]
+            if isinstance(e, ast.UnaryOp) and isinstance(e.op, ast.Not):
+                return not beval(e.operand, env, F, B)
+            if isinstance(e, ast.BoolOp):
+                if isinstance(e.op, ast.Or):
+                    for v in e.values:
+                        if beval(v, env, F, B):
+                            return True
+                    return False
+                for v in e.values:
+                    if not beval(v, env, F, B):
+                        return False
+                return True
+            if isinstance(e, ast.Compare) and len(e.ops) == 1 and isinstance(e.comparators[0], ast.Constant) and e.comparators[0].value is None \
+                    and is_best_ref(e.left):
+                if isinstance(e.left, ast.Name) and e.left.id in outer_alias and e.left.id not in env.get("#refreshed", set()):
+                    used_stale.append(e)
+                return F if isinstance(e.ops[0], (ast.Is, ast.Eq)) else not F
+            if isinstance(e, ast.Call) and call_name(e) == "is_better":
+                args = [a for a in e.args if not (isinstance(a, ast.Name) and a.id == "problem") and not is_self_attr(a, "problem")]
+                if len(args) != 2:
+                    raise _Undecided(f"is_better with {len(args)} fitness arguments")
+
+                def side(a: ast.AST) -> str:
+                    has_best = any(is_best_ref(x) for x in ast.walk(a))
+                    has_ind = ind in names_read(a)
+                    return "old" if has_best and not has_ind else "new" if has_ind and not has_best else "?"
+                sd = (side(args[0]), side(args[1]))
+                for a in args:
+                    for x in ast.walk(a):
+                        if isinstance(x, ast.Name) and x.id in outer_alias and x.id not in env.get("#refreshed", set()):
+                            used_stale.append(e)
+                if F:
+                    raise _Undecided("is_better evaluated although no best is stored (would dereference None)")
+                if sd == ("new", "old"):
+                    return B
+                if sd == ("old", "new"):
+                    raise _Swapped()
+                raise _Undecided(f"is_better sides {sd}")
+            raise _Undecided(f"unrecognised condition '{norm(e)[:50]}'")
+
+        def run_body(stmts, env, F, B, out):
+            for st in stmts:
                 if isinstance(st, ast.Assign) and len(st.targets) == 1:
                     t = st.targets[0]
                     if isinstance(t, ast.Name):
-                        env[t.id] = _bool_of(st.value, env)
+                        if isinstance(st.value, ast.Name) and st.value.id == ind and t.id in aliases:
+                            env.setdefault("#refreshed", set()).add(t.id)
+                            continue
+                        if is_self_attr(st.value, attr):
+                            env.setdefault("#refreshed", set()).add(t.id)
+                            continue
+                        if isinstance(st.value, (ast.Attribute, ast.Name)) and not isinstance(st.value, ast.Constant) and t.id not in ("is_best",) \
+                                and not isinstance(st.value, (ast.BoolOp, ast.Compare, ast.UnaryOp, ast.Call)):
+                            continue  # plain data alias (problem = self.problem)
+                        try:
+                            env[t.id] = beval(st.value, env, F, B)
+                        except _Undecided:
+                            if isinstance(st.value, (ast.BoolOp, ast.Compare, ast.UnaryOp, ast.Constant)) or (isinstance(st.value, ast.Call) and call_name(st.value) == "is_better"):
+                                raise
                     elif is_self_attr(t, attr):
-                        assigned = "new" if isinstance(st.value, ast.Name) and st.value.id == ind else "other"
+                        out["assigned"] = "new" if isinstance(st.value, ast.Name) and st.value.id == ind else "other"
+                elif isinstance(st, ast.If):
+                    branch = st.body if beval(st.test, env, F, B) else st.orelse
+                    if run_body(branch, env, F, B, out) == "exit":
+                        return "exit"
+                elif isinstance(st, (ast.For, ast.AsyncFor)) and any(r in list(ast.walk(st)) for r in reg):
+                    out["flag"] = beval(flag_expr, env, F, B)
                 elif isinstance(st, ast.Expr) and isinstance(st.value, ast.Call) and st.value in reg:
-                    flag_at_register = _bool_of(flag_expr, env)
-            first = better = None
-            other_conds = []
-            for test, pol in conds_on(p):
-                isn = _is_best_attr_none(test, attr)
-                if isn is not None:
-                    first = (isn == pol)
-                    continue
-                bc = _better_call(test, ind, attr)
-                if bc is not None:
-                    better = (bc, pol)
-                    continue
-                other_conds.append(norm(test))
-            should = (first is True) or (better is not None and better == ("new>old", True))
-            desc = f"path {i}: first={first} better={better} others={other_conds}"
-            if other_conds or assigned == "other":
-                ctx.ob("C12.R1", fn, fn.node, f"best-update path {i}", None,
-                       f"unrecognised condition/assignment on the path: {desc}")
+                    out["flag"] = beval(flag_expr, env, F, B)
+                elif isinstance(st, (ast.Return, ast.Continue, ast.Break)):
+                    return "exit"
+            return "fall"
+
+        for (F, B, label) in ((True, False, "no best yet"), (False, True, "strictly better than the stored best"), (False, False, "not better than the stored best")):
+            n += 1
+            out = {"assigned": None, "flag": "unset"}
+            construct = f"best-update case [{label}]"
+            try:
+                run_body(body, {}, F, B, out)
+            except _Swapped:
+                ctx.ob("C12.R1", fn, fn.node, construct, False,
+                       "is_better is applied as is_better(best, new): the stored best is replaced when the OLD one is better")
                 continue
-            swapped = better is not None and better[0] == "old>new"
-            if swapped:
-                ctx.ob("C12.R1", fn, fn.node, f"best-update path [{_pdesc(first, better)}]", False,
-                       "is_better is applied as is_better(best, new): the stored best is replaced when the OLD one "
-                       "is better")
+            except _Undecided as e:
+                ctx.ob("C12.R1", fn, fn.node, construct, None, str(e))
                 continue
-            ok_assign = (assigned == "new") == should
-            ok_flag = flag_at_register is should if isinstance(flag_at_register, bool) else False
-            ctx.ob("C12.R1", fn, fn.node, f"best-update path [{_pdesc(first, better)}]", ok_assign and ok_flag,
+            should = F or B
+            ok_assign = (out["assigned"] == "new") == should and out["assigned"] != "other"
+            ok_flag = out["flag"] is should
+            ctx.ob("C12.R1", fn, fn.node, construct, ok_assign and ok_flag,
                    "" if ok_assign and ok_flag else
-                   f"on this path the best {'is' if assigned else 'is not'} replaced and recorders get "
-                   f"is_best={flag_at_register}; expected replaced={should}, is_best={should}",
-                   witness={"assigned": assigned, "flag": str(flag_at_register), "expected": should})
+                   f"when the new individual is {label}: the stored best {'is' if out['assigned'] else 'is not'} replaced and recorders get "
+                   f"is_best={out['flag']}; expected replaced={should}, is_best={should}",
+                   witness={"case": label, "assigned": out["assigned"], "flag": str(out["flag"]), "expected": should})
+        # the incumbent compared against must be the current one
+        n += 1
+        stale = sorted({norm(x)[:60] for x in used_stale})
+        ctx.ob("C12.R1", fn, used_stale[0] if used_stale else fn.node, "the comparison uses the currently stored best", not stale,
+               "" if not stale else f"'{stale[0]}' compares against '{sorted(outer_alias)[0]}', a copy of the stored best taken before the loop "
+                                    f"over the evaluated individuals and never refreshed: within one batch every individual is compared with "
+                                    f"the best from before the batch, so a later, smaller improvement overwrites an earlier, larger one")
         # nothing else stores the best
         for f in prog.functions.values():
             for nd in walk_local(f.node):
